@@ -946,7 +946,7 @@ pub(crate) fn g_ip(r: &mut Rng, v6: bool) -> Term {
 pub(crate) fn g_hdr(r: &mut Rng) -> Term {
     let locrib = r.chance(1, 6);
     let ptype: u8 = if locrib { 3 } else if r.chance(1, 25) { *r.pick(&[1u8, 2, 255]) } else { 0 };
-    let flags: u8 = if r.chance(1, 20) { *r.pick(&[0x80u8, 0xc0, 0xff, 0x01]) } else { *r.pick(&[0u8, 0, 0x40, 0x10, 0x50]) };
+    let flags: u8 = if r.chance(1, 40) { *r.pick(&[0x80u8, 0xc0, 0xff, 0x01]) } else { *r.pick(&[0u8, 0, 0x40, 0x10, 0x50]) };
     let dist: u64 = if r.chance(1, 8) {
         let x = r.next();
         *r.pick(&[x, u64::MAX, 1])
@@ -1140,7 +1140,7 @@ pub(crate) fn g_update(r: &mut Rng, tier_big: bool) -> Term {
     if kind <= 3 {
         return Term::tag("unreach", vec![Term::nat(fam_num(fam)), Term::list(ents)]);
     }
-    let nh = if r.chance(1, 30) {
+    let nh = if r.chance(1, 60) {
         Term::atom("none")
     } else {
         let mixed = r.chance(1, 8);
@@ -1229,7 +1229,9 @@ pub(crate) fn g_rec(r: &mut Rng, big: bool) -> Term {
         }
         7 | 8 => {
             let h = g_hdr(r);
-            let v6 = r.chance(1, 2);
+            // the local address is of the peer's family (one TCP session); a mismatch (outside the domain) only rarely
+            let peer_v6 = h.as_list().and_then(|l| l.get(4)).and_then(|a| a.head()).map(|k| k == "v6").unwrap_or(false);
+            let v6 = if r.chance(1, 12) { !peer_v6 } else { peer_v6 };
             Term::tag(
                 "bmp-up",
                 vec![h, g_ip(r, v6), Term::nat(*r.pick(&[0u16, 179, 65535])), Term::nat(*r.pick(&[0u16, 179, 12345])), q(), g_open(r), g_open(r)],
@@ -1261,7 +1263,7 @@ pub(crate) fn g_rec(r: &mut Rng, big: bool) -> Term {
         12 => Term::atom(*r.pick(&["bmp-stats", "bmp-term", "bmp-mirror"])),
         13..=16 => {
             let v6 = r.chance(1, 2);
-            let lv6 = if r.chance(1, 12) { !v6 } else { v6 };
+            let lv6 = if r.chance(1, 25) { !v6 } else { v6 };
             let asn4 = if r.chance(1, 25) { "f" } else { "t" };
             let mph = Term::tag(
                 "mph",
@@ -1275,7 +1277,7 @@ pub(crate) fn g_rec(r: &mut Rng, big: bool) -> Term {
 }
 
 pub(crate) fn g_ent(r: &mut Rng, v6: bool, npeers: usize, big: bool) -> Term {
-    let pidx = if npeers > 0 && !r.chance(1, 25) { r.below(npeers as u64) } else { *r.pick(&[0u64, 5, 65535]) };
+    let pidx = if npeers > 0 && !r.chance(1, 60) { r.below(npeers as u64) } else { *r.pick(&[0u64, 5, 65535]) };
     let nh = if r.chance(1, 10) {
         Term::atom("none")
     } else {
